@@ -1,10 +1,11 @@
 (* C01 -- static inference recovers the tensions of any tissue in force balance.  Statements only.
    The property composes three facts: (i) the assembled rows are outward unit tangents (C02); (ii) force balance then makes
    (T / mean T, 0) an exact solution of the augmented system; (iii) the solver returns a minimiser over the non-negative orthant (C05),
-   and an injective augmented matrix has only one.  (ii) and (iii) are the theorems below; the composition is exercised end to end
-   by harness/props/c01.py. *)
-From Coq Require Import List Reals.
-From Forsys Require Import Model.Num Model.Cert Proofs.CertProofs.
+   and an injective augmented matrix has only one.  (ii) and (iii) are the theorems below, and so is the link from (i) to (ii): the two rows of a junction applied to a
+   tension vector are the resultant of the tensions along the assembled versors, so tensions in force balance are in the kernel of the
+   assembled matrix.  The composition on floating-point data is exercised end to end by harness/props/c01.py. *)
+From Coq Require Import List Reals ZArith QArith.
+From Forsys Require Import Model.Num Model.PyList Model.Interfaces Model.ForceSys Model.Cert Proofs.CertProofs Proofs.ForceSysProofs Proofs.BalanceProofs.
 Import ListNotations.
 
 Theorem C01_equilibrium_solves_augmented : forall (M : list (list R)) (T b : list R),
@@ -38,7 +39,36 @@ Theorem C01_perturbation_bound : forall n (A : list (list R)) (b xh xs : list R)
   (sigma2 * sqn ROps (vsub ROps xh xs) <= 4 * sqn ROps (vsub ROps (mv ROps A xs) b))%R.
 Proof. exact perturbation_bound. Qed.
 
+(* ---- from the assembled system (Model/ForceSys.v, C02) to the algebra: what a junction's two rows compute *)
+Theorem C01_junction_rows_are_resultants : forall to_use ncells_v incs (t : list Q),
+  NoDup (map fst (writes to_use ncells_v incs)) -> length t = length to_use ->
+  (forall w, In w (writes to_use ncells_v incs) -> (fst w < length to_use)%nat) ->
+  let eq := vertex_equation to_use ncells_v incs in
+  (qdot (fst eq) t == qsum (map (fun w => fst (snd w) * nth (fst w) t 0) (writes to_use ncells_v incs)))%Q /\
+  (qdot (snd eq) t == qsum (map (fun w => snd (snd w) * nth (fst w) t 0) (writes to_use ncells_v incs)))%Q.
+Proof. exact junction_rows_are_resultants. Qed.
+(* tensions that are in force balance at every junction are annihilated by every row of the assembled matrix *)
+Theorem C01_balanced_tensions_in_kernel : forall ignore_four to_use tj ncells incidents (t : list Q), length t = length to_use ->
+  (forall v, In v tj -> junction_ok to_use (ncells v) (incidents v)) ->
+  (forall v, In v tj -> in_balance to_use (ncells v) (incidents v) t) ->
+  Forall (fun row => (qdot row t == 0)%Q) (fm_rows (build_matrix ignore_four to_use tj ncells incidents)).
+Proof. exact balanced_tensions_in_kernel. Qed.
+
+(* three interfaces meeting at junction 1 along (3/5, 4/5), (-3/5, 4/5), (0, -1) under tensions 5, 5, 8: the premises hold *)
+Example C01_balanced_junction :
+  let to_use := [[1; 2]; [1; 3]; [4; 1]]%Z in
+  let incs := [mkInc [1; 2]%Z false (3 # 5) (4 # 5); mkInc [1; 3]%Z false (-3 # 5) (4 # 5); mkInc [4; 1]%Z false 0 (-1 # 1)]%Q in
+  junction_ok to_use 3%Z incs /\ in_balance to_use 3%Z incs [5 # 1; 5 # 1; 8 # 1]%Q /\
+  vertex_equation to_use 3%Z incs = ([3 # 5; -3 # 5; 0], [4 # 5; 4 # 5; -1 # 1])%Q.
+Proof. cbv zeta. split; [|split].
+  - unfold junction_ok. vm_compute. split; [repeat constructor; simpl; intuition discriminate|].
+    intros w [<- | [<- | [<- | []]]]; repeat constructor.
+  - unfold in_balance. vm_compute. split; reflexivity.
+  - vm_compute. reflexivity. Qed.
+
 Print Assumptions C01_equilibrium_solves_augmented.
 Print Assumptions C01_zero_residual_minimiser_unique.
 Print Assumptions C01_kkt_exact.
 Print Assumptions C01_perturbation_bound.
+Print Assumptions C01_junction_rows_are_resultants.
+Print Assumptions C01_balanced_tensions_in_kernel.
